@@ -455,6 +455,11 @@ vfps::HDF5File::readPhaseSpace( std::string fname
     H5::DataSpace ps_space(ps_dataset.getSpace());
 
     auto rank = ps_space.getSimpleExtentNdims();
+    if (rank != 3 && rank != 4) {
+        throw std::invalid_argument("/PhaseSpace/data has "
+                                    + std::to_string(rank) + " dimensions"
+                                    + " (expected: 3 or 4)");
+    }
     std::vector<hsize_t> ps_dims(rank);
     ps_space.getSimpleExtentDims( ps_dims.data(), nullptr );
 
